@@ -5,7 +5,7 @@ from core import hx, unhx
 import props.c08 as c08
 
 LEAN_MODULE = 'QM.Props.C08'
-THEOREMS = ['Refine.C08_process_refines', 'Refine.C09_members_order_free', 'Refine.C09_members_exact', 'Cv.C08_process_concrete', 'Cv.C09_members_concrete', 'Cv.sys_local', 'Cv.link_higher', 'Cv.fromContainer_link', 'Cv.C08_priorities', 'Conform.sorting_priority']
+THEOREMS = ['Refine.C08_process_refines', 'Refine.C09_members_order_free', 'Refine.C09_members_exact', 'Cv.C08_process_concrete', 'Cv.C09_members_concrete', 'Cv.C09_pod_wants_members', 'Cv.pod_members', 'Cv.sys_local', 'Cv.link_higher', 'Cv.fromContainer_link', 'Cv.C08_priorities', 'Conform.sorting_priority']
 ASSUMPTIONS = c08.ASSUMPTIONS + ['a container that fails after it was recorded in its pod\'s start list still appears there (observed; handle_pod runs before the remaining steps); the oracle follows the property text and counts only containers that reach handle_pod']
 LEVEL_TEXT = ('Proof (abstract refinement) + oracle: by C08_process_refines every pod is converted against the complete list of containers that link to it '
               'under the final table, whatever sorted order was used; C09_members_exact says that list holds exactly the linkers (no more, no fewer), '
